@@ -113,42 +113,59 @@ Qed.
 Lemma crel_perm shp ch0 ch : crel shp ch0 ch -> (forall x, cnt ch x = cnt ch0 x) -> Permutation ch ch0.
 Proof. intros _ H. apply (Permutation_count_occ N.eq_dec). exact H. Qed.
 
+(* ---- std::is_permutation ---- *)
+Lemma count_eq_occ x l : count_eq x l = N.of_nat (cnt l x).
+Proof.
+  unfold count_eq, vlen. induction l as [|a l IH]; cbn [filter count_occ]; [reflexivity|].
+  destruct (N.eqb_spec x a) as [Heq|Hne]; destruct (N.eq_dec a x) as [E|E]; try congruence; cbn [length]; lia.
+Qed.
+
+Lemma is_permutation_b_sound a b : is_permutation_b a b = true -> Permutation a b.
+Proof.
+  intros H. apply (Permutation_count_occ N.eq_dec). intros x.
+  unfold is_permutation_b in H. rewrite forallb_forall in H.
+  destruct (in_dec N.eq_dec x (a ++ b)) as [Hin|Hnin].
+  - specialize (H x Hin). apply N.eqb_eq in H. rewrite !count_eq_occ in H. lia.
+  - assert (~ In x a /\ ~ In x b) as (Ha & Hb) by (split; intros Hc; apply Hnin, in_or_app; auto).
+    apply (count_occ_not_In N.eq_dec) in Ha, Hb. lia.
+Qed.
+
+Lemma is_permutation_b_complete a b : Permutation a b -> is_permutation_b a b = true.
+Proof.
+  intros H. unfold is_permutation_b. apply forallb_forall. intros x _. apply N.eqb_eq.
+  rewrite !count_eq_occ. f_equal. apply (Permutation_count_occ N.eq_dec). exact H.
+Qed.
+
 Section Rebuild.
   Variable ob : bool.
   Variable rso : list N.
   Variable g : list sblock.
   Let shp := fun x => kind_at g x K_SHAPE.
 
-  (* the exact side condition of the rootShapeOrder branch (NifFile.cpp:544-552 / 585-593) *)
-  Definition order_ok (is_root : bool) (ch : list N) : Prop :=
-    is_root = false \/ vlen rso <> vlen (filter shp ch) \/ Permutation rso (filter shp ch).
-
-  Lemma shape_order_perm shapes : vlen rso <> vlen shapes \/ Permutation rso shapes ->
-    Permutation (shape_order rso shapes) shapes.
+  (* the rootShapeOrder branch (NifFile.cpp:544-553 / 586-595) only ever permutes the shapes *)
+  Lemma shape_order_perm shapes : Permutation (shape_order rso shapes) shapes.
   Proof.
-    unfold shape_order. intros [Hne|Hp].
-    - destruct (N.eqb_spec (vlen rso) (vlen shapes)); [contradiction|apply Permutation_refl].
-    - destruct (vlen rso =? vlen shapes); [|apply Permutation_refl].
-      replace (map (fun r => if s_contains shapes r then r else 0) rso) with rso; [exact Hp|].
-      symmetry. erewrite map_ext_in; [apply map_id|]. intros r Hr. cbn.
-      assert (In r shapes) by (eapply Permutation_in; eauto).
-      apply contains_in in H. rewrite H. reflexivity.
+    unfold shape_order.
+    destruct ((vlen rso =? vlen shapes) && is_permutation_b shapes rso)%bool eqn:E; [|apply Permutation_refl].
+    apply andb_prop in E. destruct E as (_ & Hp). apply is_permutation_b_sound in Hp.
+    replace (map (fun r => if s_contains shapes r then r else 0) rso) with rso; [apply Permutation_sym; exact Hp|].
+    symmetry. erewrite map_ext_in; [apply map_id|]. intros r Hr. cbn.
+    assert (In r shapes) by (eapply Permutation_in; [apply Permutation_sym; exact Hp|exact Hr]).
+    apply contains_in in H. rewrite H. reflexivity.
   Qed.
 
   Theorem rebuild_spec is_root ch :
     (forall x, In x ch -> x = NPOS \/ x < vlen g) ->                         (* references empty or in range *)
     (forall x, kind_at g x K_NODE = true -> kind_at g x K_SHAPE = false) ->   (* no object is both a node and a shape *)
-    order_ok is_root ch ->
     crel shp ch (rebuild ob rso is_root g ch).
   Proof.
-    intros Hrange Hexcl Hok. unfold rebuild.
+    intros Hrange Hexcl. unfold rebuild.
     set (nodes := filter (node_first ob g) ch).
     set (shapes := filter (fun x => kind_at g x K_SHAPE) ch).
     set (shapes' := if is_root then shape_order rso shapes else shapes).
     set (emp := filter (N.eqb NPOS) ch).
     assert (Hsp : Permutation shapes' shapes).
-    { unfold shapes'. destruct is_root; [|apply Permutation_refl]. apply shape_order_perm.
-      destruct Hok as [Hc|Hc]; [discriminate|exact Hc]. }
+    { unfold shapes'. destruct is_root; [apply shape_order_perm|apply Permutation_refl]. }
     destruct (add_missing_spec g ch (nodes ++ shapes')) as (ext & -> & Hnd & Hext & Hall).
     assert (Hnodes : forall x, In x nodes <-> In x ch /\ node_first ob g x = true) by (intros; apply filter_In).
     assert (Hshapes : forall x, In x shapes' <-> In x ch /\ shp x = true).
@@ -215,12 +232,11 @@ Section Rebuild.
   Corollary rebuild_permutation is_root ch :
     (forall x, In x ch -> x = NPOS \/ x < vlen g) ->
     (forall x, kind_at g x K_NODE = true -> kind_at g x K_SHAPE = false) ->
-    order_ok is_root ch ->
     (forall x, x <> NPOS -> node_first ob g x = false -> shp x = false -> (cnt ch x <= 1)%nat) ->
     Permutation (rebuild ob rso is_root g ch) ch.
   Proof.
-    intros Hrange Hexcl Hok Hdup.
-    pose proof (rebuild_spec is_root ch Hrange Hexcl Hok) as (Hin & Hle & Hp).
+    intros Hrange Hexcl Hdup.
+    pose proof (rebuild_spec is_root ch Hrange Hexcl) as (Hin & Hle & Hp).
     apply (Permutation_count_occ N.eq_dec). intros x.
     specialize (Hle x).
     destruct (N.eq_dec x NPOS) as [->|Hne].
@@ -244,14 +260,6 @@ Section Rebuild.
           -- apply (count_occ_not_In N.eq_dec) in Hni. lia.
   Qed.
 End Rebuild.
-
-(* with an empty rootShapeOrder (PrettySortBlocks) the side condition always holds *)
-Lemma order_ok_nil g is_root ch : order_ok [] g is_root ch.
-Proof.
-  unfold order_ok. destruct (filter (fun x => kind_at g x K_SHAPE) ch) as [|a l] eqn:E.
-  - right. right. constructor.
-  - right. left. unfold vlen. cbn. lia.
-Qed.
 
 (* ---- the block vector during a traversal: every block is the original one up to its child array ---- *)
 Definition same_but_children (b0 b : sblock) : Prop := b = with_children b0 (s_children b).
@@ -314,8 +322,6 @@ Section Children.
   Variable g0 : list sblock.
   Hypothesis Hrange : refs_in_range g0.
   Hypothesis Hexcl : node_shape_excl g0.
-  (* the side condition of the rootShapeOrder branch, on the original child array of block 0 *)
-  Hypothesis Hord : forall b0, vget g0 0 = Some b0 -> order_ok rso g0 true (s_children b0).
 
   Lemma rebuild_at_grel i st : grel g0 (st_gr st) -> grel g0 (st_gr (rebuild_at ob rso i st)).
   Proof.
@@ -334,16 +340,7 @@ Section Children.
       - intros x Hx. apply Rc in Hx. unfold refs_in_range in Hrange. rewrite Forall_forall in Hrange.
         specialize (Hrange b0 (in_vget _ _ _ E0)). rewrite Forall_forall in Hrange.
         rewrite (grel_len _ _ HG). auto.
-      - intros x Hx. rewrite (grel_kind _ _ x K_NODE HG) in Hx. rewrite (grel_kind _ _ x K_SHAPE HG). apply excl_at; assumption.
-      - destruct (N.eqb_spec i 0) as [->|_]; [|left; reflexivity].
-        destruct (Hord b0 E0) as [Hc|[Hc|Hc]]; [discriminate| |].
-        + right. left. intros Hl. apply Hc. rewrite Hl.
-          destruct Rc as (_ & _ & Rp). apply Permutation_length in Rp.
-          erewrite (filter_ext _ (fun x => kind_at g0 x K_SHAPE)); [|intros; apply grel_kind; exact HG].
-          unfold vlen. f_equal. exact Rp.
-        + right. right. destruct Rc as (_ & _ & Rp).
-          erewrite (filter_ext _ (fun x => kind_at g0 x K_SHAPE)); [|intros; apply grel_kind; exact HG].
-          eapply Permutation_trans; [exact Hc|apply Permutation_sym; exact Rp]. }
+      - intros x Hx. rewrite (grel_kind _ _ x K_NODE HG) in Hx. rewrite (grel_kind _ _ x K_SHAPE HG). apply excl_at; assumption. }
     assert (Hspec0 : crel (fun x => kind_at g0 x K_SHAPE) (s_children b) ch').
     { destruct Hspec as (S1 & S2 & S3). split; [exact S1|]. split; [exact S2|].
       erewrite !(filter_ext (fun x => kind_at g0 x K_SHAPE)) by (intros; symmetry; apply grel_kind; exact HG).
